@@ -9,6 +9,8 @@
 #include <QFile>
 #include <QMimeDatabase>
 #include <QPointer>
+#include <fcntl.h>
+#include <sys/stat.h>
 #include <qhttpengine/filesystemhandler.h>
 #include <qhttpengine/socket.h>
 using namespace QHttpEngine;
@@ -28,10 +30,15 @@ static QByteArray listingOf(const QString &dir)
     return i < 0 ? QByteArray() : w.mid(i + 4);
 }
 
+static void fsOracleAt(Out &out, const QString &base);
 void fsOracle(Out &out)
 {
+    fsOracleAt(out, QDir::cleanPath(QDir::currentPath() + "/fstree"));
+}
+
+static void fsOracleAt(Out &out, const QString &base)
+{
     // file-system oracle: everything under the tree base, and the ancestors of the base
-    QString base = QDir::cleanPath(QDir::currentPath() + "/fstree");
     QMimeDatabase db;
     {
         QString p = base;
@@ -63,14 +70,26 @@ void runFs(const Scn &scn, Out &out)
 {
     QStringList *obs = &out.obs;
     QByteArray root, stream;
+    bool mkroot = false;
     QStringList events;
     foreach (const QString &t, scn.toks) {
         QStringList p = t.split(':');
         if (p[0] == "root") root = unhx(p[1]);
+        else if (p[0] == "mkroot") mkroot = true;
         else { events << t; if (p[0] == "feed") stream.append(unhx(p[1])); }
     }
     urlOracle(stream, out);
     fsOracle(out);
+    // `mkroot`: the document root is a directory of this scenario alone (created here, removed at the end), holding
+    // one file whose content the scenario changes and restores (`warmrw`)
+    const QString rwFile = QString::fromUtf8(root) + "/f.bin";
+    auto rwContent = [](int n) { QByteArray b(n, 0); for (int i = 0; i < n; ++i) b[i] = char((i * 7 + 11) % 251); return b; };
+    auto rwPut = [&](int n) { QFile f(rwFile); if (f.open(QIODevice::WriteOnly | QIODevice::Truncate)) { f.write(rwContent(n)); f.close(); } };
+    if (mkroot) {
+        QDir().mkpath(QString::fromUtf8(root));
+        rwPut(50);
+        fsOracleAt(out, QDir::cleanPath(QString::fromUtf8(root)));
+    }
 
     QPointer<FilesystemHandler> handlerP = new FilesystemHandler(QString::fromUtf8(root));
     FilesystemHandler &handler = *handlerP;
@@ -80,6 +99,30 @@ void runFs(const Scn &scn, Out &out)
     int k = 0;
     foreach (const QString &t, events) {
         QStringList p = t.split(':');
+        if (p[0] == "warmrw") {
+            // an earlier request for the scenario's own file, served by the same handler object while the file had
+            // another size; the content is put back afterwards with the modification time unchanged (two saves
+            // within the granularity of the time stamp).  Not observed.
+            if (!handlerP || !mkroot) continue;
+            struct stat st0; bool have = ::stat(rwFile.toUtf8().constData(), &st0) == 0;
+            auto keepTime = [&]() { if (have) { struct timespec ts[2] = { st0.st_atim, st0.st_mtim }; ::utimensat(AT_FDCWD, rwFile.toUtf8().constData(), ts, 0); } };
+            rwPut(p[1].toInt()); keepTime();
+            QStringList sink2;
+            QPointer<SimTcp> wt = new SimTcp;
+            wt->log = &sink2;
+            QPointer<Socket> ws = new Socket(wt);
+            Socket *w = ws;
+            FilesystemHandler *hp2 = handlerP;
+            QObject::connect(w, &Socket::headersParsed, [hp2, w]() { hp2->route(w, w->path().mid(1)); });
+            wt->feed("GET /f.bin HTTP/1.1\r\n\r\n");
+            for (int i = 0; i < 6; ++i) { eventTurn(); if (wt) wt->ackAll(); }
+            if (wt) { wt->log = nullptr; wt->peerClose(); }
+            eventTurn();
+            if (ws) delete ws.data();
+            eventTurn();
+            rwPut(50); keepTime();
+            continue;
+        }
         if (p[0] == "warm") {
             // an earlier request, on another connection, served by the same handler object; not observed: what
             // the handler answers later must not depend on it
@@ -128,4 +171,5 @@ void runFs(const Scn &scn, Out &out)
     eventTurn();
     if (handlerP) delete handlerP.data();
     eventTurn();
+    if (mkroot) QDir(QString::fromUtf8(root)).removeRecursively();
 }
